@@ -510,7 +510,12 @@ def _dssr_document(case, rng_noise=0):
         # an ensemble whose model numbers are not their positions: the LAST entry holds this case's lines (and is
         # the one asked for by number), the first one holds another model's (no interactions at all)
         first, asked = (int(x) for x in case["wrapper"].split("-")[1:])
-        return {"models": [{"index": 1, "model": first, "parameters": {"num_pairs": 0, "pairs": [], "stacks": []}},
+        empty = {"num_pairs": 0, "pairs": [], "stacks": []}
+        if case.get("via", "api") != "api":
+            # the command-line tool names no model: it reads the FIRST entry, which then holds this case's lines
+            return {"models": [{"index": 1, "model": first, "parameters": body},
+                               {"index": 2, "model": asked, "parameters": empty}]}
+        return {"models": [{"index": 1, "model": first, "parameters": empty},
                            {"index": 2, "model": asked, "parameters": body}]}
     return body
 
